@@ -115,6 +115,22 @@ def run(ctx):
             ctx.check(ok, "C17-b", psn.key, "caller's buffer advanced by what Quinn accepted", "advance(%s, %s)" % (pa.vfmt(e[3][0]), pa.vfmt(a)[:60]), "")
             ctx.check(p.ret_shape().startswith("Ready(Ok(") and expr.mentions(p.ret, lambda v: v[0] == "call" and pa.short(v[1]) == "poll_write"),
                       "C17-b", psn.key, "reports the same count", "returns %s" % pa.vfmt(p.ret)[:60], "")
+    # the receive stream travels into the read future and comes back out with the result: once the future has answered, the stream
+    # is put back on EVERY exit, also when the read failed (the next poll_data takes it out again; an empty slot makes it poll a
+    # finished future - a panic - instead of reporting the error again)
+    pdr = ru.need(ctx, "C17-c", "<h3_quinn::RecvStream as h3::quic::RecvStream>::poll_data")
+    if pdr:
+        n_back = 0
+        for p in [p for p in ru.all_paths(ctx, "C17-c", pdr, max_visits=1) if p.end == "return"]:
+            ready_ = [t[2] for t in p.tests if t[3][0] == "discr" and "poll@" in t[1] and "<Ready>" not in t[1]]
+            if ready_[:1] != ["Ready"]:
+                continue
+            n_back += 1
+            back = [e for e in p.stores() if pa.vfmt(e[4]).endswith(".stream") and e[3][0] == "agg" and e[3][2] == "Some" and "poll@" in pa.vfmt(e[3])]
+            ctx.check(bool(back), "C17-c", pdr.key, "stream put back on every exit after the read completed (%s)" % p.ret_shape()[:24],
+                      "poll_data returns %s after the read future answered without storing the stream back into self.stream: the stream is lost, "
+                      "and the next poll_data polls the finished future (panic) instead of reporting the error" % p.ret_shape()[:40], "", None, p.describe())
+        ctx.floor("C17-c", "exits of RecvStream::poll_data after the read completed", n_back, 2)
     # ------------------------------------------------------------------ C17-c nullability
     # fields of Option type in h3_quinn structs that some method leaves empty on an exit
     emptied = {}
